@@ -663,12 +663,13 @@ impl ParserListener for Screen {
             // enabled, move the cursor to the beginning of the next line,
             // otherwise replace characters already displayed with newly
             // entered.
-            if self.cursor.x == self.columns {
+            let printable = char_width == 1 || char_width == 2;
+            if printable && self.cursor.x == self.columns {
                 if self.mode.contains(&DECAWM) {
                     self.dirty.insert(self.cursor.y);
                     self.cariage_return();
                     self.linefeed();
-                } else if char_width > 0 {
+                } else {
                     self.cursor.x = self.cursor.x.saturating_sub(char_width as u32);
                 }
             }
@@ -676,7 +677,7 @@ impl ParserListener for Screen {
             // If Insert mode is set, new characters move old characters to
             // the right, otherwise terminal is in Replace mode and new
             // characters replace old characters at cursor position.
-            if self.mode.contains(&IRM) && char_width > 0 {
+            if self.mode.contains(&IRM) && printable {
                 self.insert_characters(Some(char_width as u32));
             }
 
